@@ -5,6 +5,7 @@ package main
 // attribute it sits in).  Used by the oracles of C02, C08, C09, C10, C13, C18, C19.
 
 import (
+	"github.com/hashicorp/hcl/v2"
 	"fmt"
 	"math/rand"
 	"strings"
@@ -46,10 +47,15 @@ func tfSchema() *schema.BodySchema {
 					"via":  {IsOptional: true, Constraint: schema.AnyExpression{OfType: cty.String}},
 				}}},
 				"item": {Type: schema.BlockTypeList, Body: &schema.BodySchema{Attributes: map[string]*schema.AttributeSchema{
-					"val": {IsOptional: true, Constraint: schema.AnyExpression{OfType: cty.String}},
+					"val":   {IsOptional: true, Constraint: schema.AnyExpression{OfType: cty.String}},
+					"count": {IsOptional: true, Constraint: schema.LiteralType{Type: cty.Number}},
+					"note":  {IsOptional: true, Constraint: schema.AnyExpression{OfType: cty.String}},
+					"zeta":  {IsOptional: true, Constraint: schema.LiteralType{Type: cty.Bool}},
 				}}},
 				"entry": {Type: schema.BlockTypeMap, Labels: []*schema.LabelSchema{{Name: "key"}}, Body: &schema.BodySchema{Attributes: map[string]*schema.AttributeSchema{
-					"val": {IsOptional: true, Constraint: schema.LiteralType{Type: cty.String}},
+					"val":  {IsOptional: true, Constraint: schema.LiteralType{Type: cty.String}},
+					"port": {IsOptional: true, Constraint: schema.LiteralType{Type: cty.Number}},
+					"mode": {IsOptional: true, Constraint: schema.LiteralType{Type: cty.String}},
 				}}},
 			},
 		}
@@ -107,11 +113,44 @@ func tfSchema() *schema.BodySchema {
 			"res": res,
 			"output": {
 				Labels: []*schema.LabelSchema{{Name: "name"}},
-				Body: &schema.BodySchema{Attributes: map[string]*schema.AttributeSchema{
-					"value": {IsRequired: true, Constraint: schema.AnyExpression{OfType: cty.DynamicPseudoType}},
-				}},
+				Body: &schema.BodySchema{
+					Attributes: map[string]*schema.AttributeSchema{
+						"value": {IsRequired: true, Constraint: schema.AnyExpression{OfType: cty.DynamicPseudoType}},
+						// a dependency key in a body that declares Targets: its value also yields a direct origin
+						"dep": {IsOptional: true, IsDepKey: true, Constraint: schema.Reference{OfScopeId: "variable"}},
+					},
+					Targets: &schema.Target{Path: lang.Path{Path: "other", LanguageID: "hcl"}, Range: hcl.Range{Filename: callerSupplied, Start: hcl.InitialPos, End: hcl.InitialPos}},
+				},
+			},
+			// free-form attributes and a nested block at the same level; the label selects a body that
+			// declares further attributes by name
+			"cfg": {
+				Labels: []*schema.LabelSchema{{Name: "kind", IsDepKey: true}},
+				Body: &schema.BodySchema{
+					AnyAttribute: &schema.AttributeSchema{IsOptional: true, Constraint: schema.AnyExpression{OfType: cty.String}},
+					Blocks: map[string]*schema.BlockSchema{
+						"sub": {Body: &schema.BodySchema{Attributes: map[string]*schema.AttributeSchema{
+							"x": {IsOptional: true, Constraint: schema.LiteralType{Type: cty.Number}},
+						}}},
+					},
+				},
+				DependentBody: map[schema.SchemaKey]*schema.BodySchema{
+					schema.NewSchemaKey(schema.DependencyKeys{Labels: []schema.LabelDependent{{Index: 0, Value: "role"}}}): {
+						Attributes: map[string]*schema.AttributeSchema{
+							"role": {IsOptional: true, Constraint: schema.Reference{OfScopeId: "variable"}},
+							"alias": {IsOptional: true, Constraint: schema.LiteralType{Type: cty.String},
+								Address: &schema.AttributeAddrSchema{Steps: schema.Address{schema.StaticStep{Name: "alias"}, schema.AttrNameStep{}}, ScopeId: "alias", AsExprType: true}},
+						},
+					},
+				},
 			},
 		},
+		ImpliedOrigins: schema.ImpliedOrigins{{
+			OriginAddress: lang.Address{lang.RootStep{Name: "var"}, lang.AttrStep{Name: "alpha"}},
+			TargetAddress: lang.Address{lang.RootStep{Name: "var"}, lang.AttrStep{Name: "alpha"}},
+			Path:          lang.Path{Path: "other", LanguageID: "hcl"},
+			Constraints:   schema.Constraints{ScopeId: "variable", Type: cty.DynamicPseudoType},
+		}},
 	}
 }
 
@@ -294,11 +333,24 @@ func (g *tfGen) resource(i int) {
 	} else if r.Intn(2) == 0 {
 		w("project", g.anyExprWithRefs("project", 1))
 	}
+	// inside nested blocks self.* is not enabled: such a reference is written but admits no origin
+	nestedVal := func(attr string) string {
+		if len(d.Attrs) > 0 && r.Intn(4) == 0 {
+			txt := "self." + d.Attrs[r.Intn(len(d.Attrs))]
+			g.refs = append(g.refs, TfRef{Addr: txt, Attr: attr + "-nested-self", Declared: true, AdmitsRef: false})
+			return txt
+		}
+		return g.anyExprWithRefs(attr, 1)
+	}
 	if r.Intn(3) == 0 {
-		fmt.Fprintf(&g.sb, "  opts {\n    flag = true\n    via = %s\n  }\n", g.anyExprWithRefs("via", 1))
+		fmt.Fprintf(&g.sb, "  opts {\n    flag = true\n    via = %s\n  }\n", nestedVal("via"))
 	}
 	for k, n := 0, r.Intn(3); k < n; k++ {
-		fmt.Fprintf(&g.sb, "  item {\n    val = %s\n  }\n", g.anyExprWithRefs("val", 1))
+		extra := ""
+		if r.Intn(3) == 0 {
+			extra = "    count = 2\n"
+		}
+		fmt.Fprintf(&g.sb, "  item {\n    val = %s\n%s  }\n", nestedVal("val"), extra)
 	}
 	if r.Intn(4) == 0 {
 		fmt.Fprintf(&g.sb, "  entry %q {\n    val = \"e\"\n  }\n", pick(r, []string{"k1", "größe"}))
@@ -361,7 +413,27 @@ func genTf(r *rand.Rand) *TfConfig {
 		g.resource(i)
 	}
 	for i, n := 0, r.Intn(3); i < n; i++ {
-		fmt.Fprintf(&g.sb, "output \"o%d\" {\n  value = %s\n}\n", i, g.anyExprWithRefs("value", 2))
+		dep := ""
+		if r.Intn(3) == 0 {
+			dep = "  dep = " + g.refText("dep", "variable", true) + "\n"
+		}
+		fmt.Fprintf(&g.sb, "output \"o%d\" {\n  value = %s\n%s}\n", i, g.anyExprWithRefs("value", 2), dep)
+	}
+	if r.Intn(3) == 0 {
+		kind := pick(r, []string{"role", "role", "plain"})
+		fmt.Fprintf(&g.sb, "cfg %q {\n  extra = %s\n", kind, g.anyExprWithRefs("extra", 1))
+		if kind == "role" {
+			if r.Intn(2) == 0 {
+				fmt.Fprintf(&g.sb, "  role = %s\n", g.refText("role", "variable", true))
+			}
+			if r.Intn(2) == 0 {
+				g.sb.WriteString("  alias = \"al\"\n")
+			}
+		}
+		if r.Intn(2) == 0 {
+			g.sb.WriteString("  sub {\n    x = 1\n  }\n")
+		}
+		g.sb.WriteString("}\n")
 	}
 	return &TfConfig{Src: g.sb.String(), Decls: g.decls, Refs: g.refs}
 }
